@@ -44,7 +44,7 @@ CLAIMS["C03"] = {
     "text": "Theorems (server and client endpoint models, every stimulus list): a stimulus addressed to one RPC changes only that RPC's stream object and emits only "
             "frames/completions tagged with its id (locality: C03_frame_local, C03_call_local, client counterparts); rejections and stream-level errors never end the tunnel; "
             "with flow control negotiated the receive loop never blocks behind a stream (C03_no_hol, C03_no_hol_client: fc streams are never 'unsupported/blocking'); "
-            "plus the regenerated code-level premise that no blocking call is made under a receive-loop lock (C03_no_blocking_call_under_loop_lock). Tied to the code by " +
+            "plus two code-level premises regenerated from the sources and decided by the kernel: no blocking call is made under a receive-loop lock (C03_no_blocking_call_under_loop_lock) and no function that can run on a receive-loop goroutine performs a carrier Send (C03_receive_loops_never_send), so bounded transport buffering cannot stall a loop. Tied to the code by " +
             _W1 + " " + _SRV + " " + _CLI + " with bystander/disturber workloads; monitor: loop-blocked-with-flow-control, tunnel-ended-by-rpc. D8 is an open finding here too.",
     "design_ref": "DESIGN.md A2 (C03)",
     "note": "Trusted: as C08. Bounded transport buffering is represented by the receive-loop-idle observation (B=1) and the lock-discipline premise, not by a finite-K carrier "
@@ -66,8 +66,8 @@ CLAIMS["C05"] = {
     "text": "Theorems over the L-atomic model of flow control (sender load/CAS/park/wake, updateWindow add/signal, carrier, accept, dequeue, credit callback; arbitrary "
             "window W>0, chunkMax>0, workload and schedule of any length): conservation of credit, no lost wake-up (sender and reader), 'blocked only behind a full unread "
             "window', 'whole window restored when everything is read', no stuck state (C05_no_stuck), every execution finite (explicit linear measure, C05_terminates) and "
-            "complete delivery (C05_completes); plus the regenerated code-level premise C05_no_blocking_call_under_loop_lock (the window update is sent with the receiver's "
-            "mutex released, so accept is always enabled). The model is tied to the real defaultSender/defaultReceiver by stepping them at verif yield points under a "
+            "complete delivery (C05_completes); plus the regenerated code-level premises C05_no_blocking_call_under_loop_lock (the window update is sent with the receiver's "
+            "mutex released, so accept is always enabled) and C05_receive_loops_never_send (the loops never wait for the carrier, so bounded buffering cannot close a cycle through them). The model is tied to the real defaultSender/defaultReceiver by stepping them at verif yield points under a "
             "harness-controlled scheduler and comparing the hook-visible state after every atomic action (random schedules each run; all schedules of tiny configurations to a depth bound), "
             "probing at every quiescent point that the receiver's mutex is free.",
     "design_ref": "DESIGN.md A2 (C05)",
@@ -170,7 +170,7 @@ CLAIMS["C15"] = {
             "executions with mutexes, close/receive and go: common lock, publication and construction each imply happens-before, and a consistently protected variable has no "
             "data race in any well-formed execution (C15_hb_of_common_lock, C15_hb_of_publication, C15_hb_of_go, C15_race_free_of_discipline); (b) on every run, that the CURRENT "
             "sources obey the discipline: the go/ast extractor regenerates every access to every field of every shared struct with the locks held there (inter-procedurally, defers "
-            "unwound LIFO), and C15_discipline / C15_blocking_calls_hold_no_loop_lock / C15_lock_order_acyclic are decided by the kernel over that table (decide +kernel). "
+            "unwound LIFO), and C15_discipline / C15_blocking_calls_hold_no_loop_lock / C15_receive_loops_never_send / C15_lock_order_acyclic are decided by the kernel over that table (decide +kernel). "
             "A removed or narrowed lock, an unlocked access, a new unprotected field, a callback under a loop lock or a lock-order cycle breaks the obligation and the offending rows are printed. "
             "Search for failing inputs: race-instrumented stress of real grpc-go tunnels with random delays at the yield points (Trailer()/call-option reads right after completion, "
             "Close/Stop during RPCs, registry queries during open/close).",
